@@ -282,6 +282,23 @@ func hostilePathBlock(p string, form, n int) string {
 	}
 }
 
+// competingKinds: the defect kinds of which several instances compete for "which error is
+// reported" (each sits behind a map-iteration site or a first-error-wins loop). The kinds added
+// later for C01 (one unusual construct that crashes) are not among them. C06 draws three quarters
+// of its multi-defect projects from this pool only.
+var competingKinds = func() (out []string) {
+	solo := map[string]bool{"notation-mix": true, "hostile-paths": true, "export-failures": true}
+	for _, k := range defectKinds {
+		if !solo[k] {
+			out = append(out, k)
+		}
+	}
+	return out
+}()
+
+// competingOnly is set by the C06 generator around its call (single-task generation).
+var competingOnly bool
+
 // genMultiDefect: a valid project plus 2-4 independent defect blocks (kinds may repeat with
 // different names), appended to the root file or to one of its included files.
 func genMultiDefect(r *Rand) *Project { return genDefects(r, r.Range(2, 4)) }
@@ -308,7 +325,11 @@ func genDefects(r *Rand, n int) *Project {
 	// of the builder. 1/3: several defects of ONE kind; 1/3: several kinds of ONE phase group;
 	// 1/3: any kinds.
 	mode := r.Pick2(0, 1, 1, 2) // half of them: several kinds of ONE phase (they compete for "which error is reported")
-	k0 := defectKinds[r.Intn(len(defectKinds))]
+	pool := defectKinds
+	if competingOnly && n > 1 {
+		pool = competingKinds
+	}
+	k0 := pool[r.Intn(len(pool))]
 	grp := defectGroups[r.Intn(len(defectGroups))]
 	for i := 0; i < n; i++ {
 		switch mode {
@@ -317,7 +338,7 @@ func genDefects(r *Rand, n int) *Project {
 		case 1:
 			kinds = append(kinds, grp[(i+int(r.s%7))%len(grp)])
 		default:
-			kinds = append(kinds, defectKinds[r.Intn(len(defectKinds))])
+			kinds = append(kinds, pool[r.Intn(len(pool))])
 		}
 	}
 	if n == 1 && r.Chance(1, 4) {
